@@ -26,7 +26,7 @@ fn exps(t: &SparseTerm, nv: usize) -> Vec<usize> {
 fn exps_str(v: &[usize]) -> String { v.iter().map(|e| e.to_string()).collect::<Vec<_>>().join(".") }
 
 /// canonical text of a sparse polynomial: terms sorted by their text, "coeff*v^p*v^p"
-fn poly_canon(p: &MVPoly) -> Vec<String> {
+pub fn poly_canon(p: &MVPoly) -> Vec<String> {
     let mut ts: Vec<(String, String)> = p.terms().iter().filter(|(c, _)| !c.is_zero()).map(|(c, t)| {
         let mon = t.iter().map(|(v, e)| format!("{}^{}", v, e)).collect::<Vec<_>>().join("*");
         (mon, f_to_str(c))
